@@ -5,7 +5,11 @@ set -u
 C=$1; ID=$2; SEED=${3:-1}
 WT=/tmp/harvest-wt
 git -C /repo worktree remove --force $WT >/dev/null 2>&1; rm -rf $WT /tmp/harvest-out
-git -C /repo worktree add -q --detach $WT $C || exit 3
+# "revert:<commit>" = current HEAD with that one commit reverted (isolates one root cause)
+case "$C" in
+  revert:*) git -C /repo worktree add -q --detach $WT HEAD || exit 3; git -C $WT revert --no-commit ${C#revert:} >/dev/null 2>&1 || { echo "revert failed"; exit 3; } ;;
+  *) git -C /repo worktree add -q --detach $WT $C || exit 3 ;;
+esac
 cd "$(dirname "$0")/.."
 VERIF_SEED=$SEED VERIF_REPO=$WT VERIF_SCRATCH=/tmp/harvest-out ./check $ID >/dev/null 2>&1
 for f in /tmp/harvest-out/failures/$ID/*.txt; do [ -f "$f" ] || continue; echo "$(basename ${f%.txt}.tape) $(stat -c %s ${f%.txt}.tape)B :: $(grep -m1 -E 'verdict=1|SUMMARY|runtime error' $f | sed 's/.*verdict=1 //' | cut -c1-170)"; done | sort -t: -k3 | uniq -f2
